@@ -18,6 +18,9 @@ claimed = {
  "C04": ("post-dominator control dependence + dominance on SSA (non-interference of counters, indicator tests before success return, severity case dominance, phi-constant exit path walk)",
          "Structural necessary conditions of the verdict: every success return of runLint is dominated by tests of all live failure indicators; counters/verdict are not control- or data-dependent on -json/-v/-vv; counters incremented under their own severity; ErrExit reaches os.Exit(non-zero). Decides control structure for all inputs, not printed numbers.",
          "trusts go/types + go/ssa (x/tools v0.50.0), my dominator/post-dominator code; assumes exit status only comes from os.Exit in cmd/falco.main", "DESIGN.md §4 C04"),
+ "C08": ("recursion-bound analysis (E9) on interpreter/** and tester, guard dominance on canonical access paths for integer / % << >> (interval reasoning on the guarding comparison), type-tag guard analysis for value.Unwrap[T] (tag tests, validated built-in argument tables extracted from the generated validators, return-kind summaries, forwarded argument slices, arity evaluation), argument-index-inside-arity rule, optional-field nil discipline with guarded-container summaries",
+         "Structural necessary conditions of crash-free bounded simulation: every recursion descends on the finite syntax tree or is bounded by a counter/visited guard (restart, call depth, includes); every integer division/shift is guarded on the same value; every Unwrap whose result is dereferenced is dominated by a test of the value's type tag (655 sites) and every args[k] lies inside every arity that reaches it (970 sites); optional syntax fields are nil-tested. Decides panic/recursion shapes for all programs and operands; not library panics, not numeric results.",
+         "trusts go/ssa; guards recognised: G1 counter bound, G2 visited set, G3 constant-selector alias, G4 ascending parameter; two named nil correlations in optnil.go; integer overflow to exactly zero in products not considered", "DESIGN.md §3 E9/E10/E2, §4 C08"),
  "C09": ("who-may-decide taint analysis on SSA: computed set of comment-bearing ast renderers, inter-procedural string taint into decision sinks (comparisons, map keys, conversions to named string types, predicates); who-may-read census of comment slots against a reviewed reader table; layout fields in branch-condition slices",
          "Structural necessary conditions of inertness: no decision in parser/linter/interpreter/tester is fed by a rendering that embeds comments; comment text is read only by the enumerated annotation parsers; layout fields never steer a branch of linter/simulator. Holds for every program and every decoration at once.",
          "trusts go/ssa; reviewed annotation-parser table in c09.go (one reason each)", "DESIGN.md §4 C09"),
